@@ -15,6 +15,28 @@
 // message queues, but are less "featured", but more useful for
 // performance sensitive contexts.  Locking must be done by the caller.
 
+#ifdef NNG_VERIF
+static void
+lmq_verif_check(nni_lmq *lmq, const char *where)
+{
+	size_t slots = lmq->lmq_mask + 1;
+	if ((lmq->lmq_len > lmq->lmq_cap) || (lmq->lmq_cap > slots) ||
+	    (lmq->lmq_get > lmq->lmq_mask) || (lmq->lmq_put > lmq->lmq_mask) ||
+	    (((lmq->lmq_get + lmq->lmq_len) & lmq->lmq_mask) != lmq->lmq_put) ||
+	    ((lmq->lmq_alloc != 0) && (lmq->lmq_alloc != slots)) ||
+	    ((lmq->lmq_alloc == 0) && (lmq->lmq_msgs != lmq->lmq_buf))) {
+		nni_verif_fail("C18",
+		    "lmq-ring-invariant %s cap=%zu alloc=%zu mask=%zu len=%zu "
+		    "get=%zu put=%zu",
+		    where, lmq->lmq_cap, lmq->lmq_alloc, lmq->lmq_mask,
+		    lmq->lmq_len, lmq->lmq_get, lmq->lmq_put);
+	}
+}
+#define LMQ_VERIF_CHECK(q, w) lmq_verif_check(q, w)
+#else
+#define LMQ_VERIF_CHECK(q, w) ((void) 0)
+#endif
+
 // Note that initialization of a queue is guaranteed to succeed.
 // However, if the requested capacity is larger than 2, and memory
 // cannot be allocated, then the capacity will only be 2.
@@ -100,6 +122,7 @@ nni_lmq_put(nni_lmq *lmq, nng_msg *msg)
 	lmq->lmq_msgs[lmq->lmq_put++] = msg;
 	lmq->lmq_len++;
 	lmq->lmq_put &= lmq->lmq_mask;
+	LMQ_VERIF_CHECK(lmq, "put");
 	return (0);
 }
 
@@ -114,6 +137,7 @@ nni_lmq_get(nni_lmq *lmq, nng_msg **mp)
 	lmq->lmq_get &= lmq->lmq_mask;
 	lmq->lmq_len--;
 	*mp = msg;
+	LMQ_VERIF_CHECK(lmq, "get");
 	return (0);
 }
 
@@ -152,6 +176,7 @@ nni_lmq_resize(nni_lmq *lmq, size_t cap)
 	lmq->lmq_len   = len;
 	lmq->lmq_put   = len;
 	lmq->lmq_get   = 0;
+	LMQ_VERIF_CHECK(lmq, "resize");
 
 	return (0);
 }
